@@ -88,6 +88,11 @@ def run(ctx):
     dynamic_level_byte(ctx, core)
     decode_routing(ctx, core)
     formats_through_fmt(ctx, core)
+    # a statement with run-time source metadata keeps exactly its message text (= C12.R9: cut at the separators measured on the text
+    # as formatted, shortened before it is sanitised)
+    from rules import c12
+    from rules.c09 import Renamed
+    c12.r9_runtime_metadata(Renamed(ctx, "C12.R9", "C04.R10"), core)
 
 
 def matrix_witness():
